@@ -1256,8 +1256,104 @@ def model_growth(fams, ops_by_fam):
     return out
 
 
+# --------------------------------------------------------------------------------------
+# stream "events": the real `_event_stream` against its Lean code mirror (stack machine) and the recursive skeleton
+# --------------------------------------------------------------------------------------
+def gen_bushy_events(r, raw: bool):
+    """a small random tree as an event list: nesting, runs of siblings, void tags (raw: sometimes WITH children), never two
+    adjacent strings (the parser would merge them)"""
+    ev, open_ = [], []
+    budget = r.randint(1, 40)
+    last_text = False
+    while budget > 0:
+        budget -= 1
+        k = r.random()
+        if open_ and k < 0.30:
+            ev.append(("c",))
+            open_.pop()
+            last_text = False
+        elif k < 0.50 and not last_text:
+            ev.append(("t", r.choice("xt")))
+            last_text = True
+        elif k < 0.62 and (not open_ or open_[-1] != "br"):
+            ev.append(("o", "br", {}, None))
+            if raw and r.random() < 0.25:
+                open_.append("br")        # a void tag that was given children through the API
+            else:
+                ev.append(("c",))
+            last_text = False
+        elif len(open_) < 8:
+            nm = r.choice(("a", "a", "b", "p", "pre", "div"))
+            ev.append(("o", nm, r.choice(({}, {}, {"class": "c"})), len(open_) if len(open_) == 0 and not any(e[0] == "o" and e[3] is not None for e in ev) else None))
+            open_.append(nm)
+            last_text = False
+    while open_:
+        ev.append(("c",))
+        open_.pop()
+    if not any(e[0] == "o" and e[3] is not None for e in ev):
+        ev = [("o", "a", {}, 0)] + ev + [("c",)]
+    return ev
+
+
+def real_events(recv, contents=False):
+    """`recv._event_stream()` with every element replaced by its position in document order below `recv` (positions found
+    by the harness' own walk over .contents, not by the navigation code)"""
+    from bs4.element import Tag
+    pos, stack, i = {}, [recv], 0
+    while stack:
+        e = stack.pop()
+        pos[id(e)] = i
+        i += 1
+        if isinstance(e, Tag):
+            stack.extend(reversed(e.contents))
+    name = {id(Tag.START_ELEMENT_EVENT): "S", id(Tag.END_ELEMENT_EVENT): "E", id(Tag.EMPTY_ELEMENT_EVENT): "X",
+            id(Tag.STRING_ELEMENT_EVENT): "T"}
+    it = recv.descendants if contents else None
+    return " ".join("%s%d" % (name[id(evt)], pos[id(el)]) for evt, el in recv._event_stream(it))
+
+
+def run_events_stream(ctx):
+    from .common import Driver
+    from bs4.element import Tag
+    r = ctx.rng("events")
+    n = ctx.n(300, 3000)
+    lines, real, cases = [], [], []
+    for t in range(n):
+        raw = r.random() < 0.5
+        ev = gen_bushy_events(r, raw)
+        h = build_raw(ev, False) if raw else build_parsed(ev)
+        toks = events_tokens(ev, False)
+        tags = [e for e in h.elems[1:] if isinstance(e, Tag)]
+        some = sorted(r.sample(range(len(tags)), min(len(tags), 3)))
+        picks = ["r"] + [str(i) for i in some] + ["c%d" % i for i in some[:2]]
+        for p in picks:
+            recv = h.root if p == "r" else tags[int(p.lstrip("c"))]
+            real.append(real_events(recv, contents=p.startswith("c")))
+            lines.append("c11 events %s %s" % (p, toks))
+            cases.append({"stream": "events", "build": "raw" if raw else "parsed", "recv": p, "events": toks,
+                          "markup": None if raw else h.markup})
+        teardown_h(h)
+    replies = Driver().ask(lines)
+    for got, rep, case in zip(real, replies, cases):
+        parts = [x.strip() for x in rep.split("|")]
+        nontriv = got.count("S") >= 2 and "X" in got or got.count("E") >= 3
+        ctx.case(("events", case["events"], case["recv"]) if nontriv else None,
+                 sample={"real": got[:120], "recv": case["recv"]} if nontriv and t % 50 == 0 else None)
+        ctx.count("events:" + ("with-void" if "X" in got else "plain"))
+        if len(parts) != 3 or parts[0] != got or parts[1] != got:
+            ctx.corr_disagreements += 1
+            ctx.violation("the real _event_stream and its Lean code mirror / recursive skeleton differ", case=case, expected=got,
+                          observed=rep, model=rep, stream="events", no_failing_input=True)
+        elif parts[2].split()[0] != parts[2].split()[1]:
+            ctx.corr_disagreements += 1
+            ctx.violation("mirror cost and evCmp differ (contradicts eventStreamImpl_cost)", case=case, observed=rep,
+                          stream="events", no_failing_input=True)
+
+
 def run(ctx):
     from .common import REPO
+    if ctx.lean is None or ctx.lean.driver_ok:
+        run_events_stream(ctx)
     ctx.rule = ("one case = (operation, shape family, construction) with the operation measured at every depth of the tier and "
                 "run once more beyond the recursion limit; non-trivial = the operation ran (did not reject the shape) at every "
                 "depth. Oracle: call depth grows by <= %d between consecutive depths (seeded random shapes, which are not homogeneous: "
